@@ -18,6 +18,8 @@ CLAIMED = {
          "Lean proof of the decision logic + exhaustive/differential correspondence"),
  "C16": ("proof", "Lean: allowed => scheme/https/rebind(no listed address class, by range arithmetic)/deny/allow conditions; every redirect hop checked; denied sends nothing; tie: URL x resolver x policy differential through real checkEgressPolicy, address-class edges, redirect chains through the real HTTPDeliverer", "§7 C16",
          "Lean proof of the decision logic + differential correspondence"),
+ "C10": ("proof", "Lean: resolve = first inbound route whose criteria all hold (resolve_first_match), non-inbound routes unreachable for every request and configuration, 404/405 exactly when nothing matches, path/host-wildcard/method criteria characterised; pinned-tree witnesses kept; tie: generated config texts through real parser+compiler+runtime state, generated requests through real resolveIngress and the real ingress handler", "§7 C10",
+         "Lean proof of the resolver model + differential correspondence"),
  "C12": ("proof", "Lean: every enqueue record of every model run satisfies C12.stepOK (admission iff below depth, drop_oldest accounting, refusal leaves queue unchanged); tie: admit-profile traces on memory and SQLite", "§7 C12",
          "Lean proof over the queue model + differential correspondence (memory, SQLite)"),
  "C14": ("proof", "Lean: every operator-mutation record of every model run satisfies C14.stepOK (exact frame, newest-first capped selection, preview = real, counts exact); tie: operator-profile traces with tie timestamps", "§7 C14",
